@@ -118,7 +118,10 @@ func c11Subjects() []c11Subject {
 		}})
 	}
 	c11UseHelpers()
-	permSets := [][]string{{}, {"pr"}, {"pw"}, {"ev"}, {"pr", "pw"}, {"pr", "ev"}, {"pw", "ev"}, {"pr", "pw", "ev"}}
+	permSets := [][]string{{}, {"pr"}, {"pw"}, {"ev"}, {"pr", "pw"}, {"pr", "ev"}, {"pw", "ev"}, {"pr", "pw", "ev"},
+		// the other permissions of the specification (hidden, write response, additional authorization, timed write) give
+		// neither read nor write nor event access
+		{"wr"}, {"pr", "wr"}, {"pr", "ev", "wr"}, {"hd"}, {"pw", "hd"}, {"pr", "ev", "hd", "wr"}, {"aa", "tw"}, {"pr", "aa", "tw", "wr", "hd"}}
 	for _, ps := range permSets {
 		ps := ps
 		lbl := "[" + strings.Join(ps, ",") + "]"
@@ -801,7 +804,7 @@ func init() {
 	fw.Register(&fw.Check{
 		ID:    "C11",
 		Level: "exploration",
-		Rule:  "every characteristic constructor found in /repo with its own permissions plus the five generic constructors under all 8 subsets of {pr,pw,ev}. In-process: every subject × ≈40 JSON-like values through UpdateValueFromConnection, alone and after each of five first events that change nothing (local update with the same value, ignored local updates, a remote read with and without a read callback, a remote write of the current value), (and UpdateValue for write-only ones): without pw value and all callback counters unchanged — also for remote writes that arrive while the application's callbacks of a local update are running; without pr no value stored or encoded. HTTP (real transport, verified controller): per characteristic a changing valid PUT, a GET, ev=true, value+ev in one entry, then a local and a remote change followed by a barrier request: without pw nothing changes and no callback fires (also for 11 other JSON spellings of a value: numbers for booleans, strings for numbers, …); without pr no value is stored or revealed (also while the application has a read callback installed — then the encoded characteristic and /accessories show no value either, and a refused write does not pull the callback's answer in — and for library characteristics whose permissions the application narrowed to write-only after they had a value: GET /characteristics is refused by permission, not by absence of a value); without ev the subscription entry is answered with a non-zero status (also for non-boolean spellings of the flag) and no EVENT follows; an EVENT for an observable characteristic without pr carries no value. distinct_nontrivial = distinct (path, format, permission set) classes The permissions a subject is DECLARED to have are taken from gen/metadata.json (by type id), not from the object; subjects whose permission sets come from the exported helpers (PermsAll/Read/ReadOnly/WriteOnly) are built while other code extends and edits the helpers' results; a rejected subscription inside requests with entries that succeed (before / after it) still carries its status. Plus, in a subprocess built with a scheduling point before EVERY statement of hc's packages (textual insertion through go build -overlay): every interleaving with at most 1 (thorough 2) preemptions of pairs of operations on disjoint objects — and, where the property is about served requests, of pairs of handlers on two verified connections of one accessory touching different characteristics — each side must observe exactly what it observes when the two run one after the other (module-level mutable state is what makes them differ).",
+		Rule:  "every characteristic constructor found in /repo with its own permissions plus the five generic constructors under all 8 subsets of {pr,pw,ev} and under 8 sets that hold the specification's other permissions (hd, wr, aa, tw) with and without those three. In-process: every subject × ≈40 JSON-like values through UpdateValueFromConnection, alone and after each of five first events that change nothing (local update with the same value, ignored local updates, a remote read with and without a read callback, a remote write of the current value), (and UpdateValue for write-only ones): without pw value and all callback counters unchanged — also for remote writes that arrive while the application's callbacks of a local update are running; without pr no value stored or encoded. HTTP (real transport, verified controller): per characteristic a changing valid PUT, a GET, ev=true, value+ev in one entry, then a local and a remote change followed by a barrier request: without pw nothing changes and no callback fires (also for 11 other JSON spellings of a value: numbers for booleans, strings for numbers, …); without pr no value is stored or revealed (also while the application has a read callback installed — then the encoded characteristic and /accessories show no value either, and a refused write does not pull the callback's answer in — and for library characteristics whose permissions the application narrowed to write-only after they had a value: GET /characteristics is refused by permission, not by absence of a value); without ev the subscription entry is answered with a non-zero status (also for non-boolean spellings of the flag) and no EVENT follows; an EVENT for an observable characteristic without pr carries no value. distinct_nontrivial = distinct (path, format, permission set) classes The permissions a subject is DECLARED to have are taken from gen/metadata.json (by type id), not from the object; subjects whose permission sets come from the exported helpers (PermsAll/Read/ReadOnly/WriteOnly) are built while other code extends and edits the helpers' results; a rejected subscription inside requests with entries that succeed (before / after it) still carries its status. Plus, in a subprocess built with a scheduling point before EVERY statement of hc's packages (textual insertion through go build -overlay): every interleaving with at most 1 (thorough 2) preemptions of pairs of operations on disjoint objects — and, where the property is about served requests, of pairs of handlers on two verified connections of one accessory touching different characteristics — each side must observe exactly what it observes when the two run one after the other (module-level mutable state is what makes them differ).",
 		Run:   c11Run,
 		Replay: func(c *fw.Ctx, raw json.RawMessage) {
 			var cas c11Case
